@@ -1,6 +1,8 @@
 package checks
 
 import (
+	"time"
+
 	"fmt"
 
 	"verif/internal/adapt"
@@ -210,6 +212,29 @@ var c09Paths = []c09Path{
 		}
 		return riTypes(r)
 	}},
+	{"router_identity.ReadRouterIdentity, re-observed after AsDestination + CreateBlindedDestination", "ri", func(id []byte, _ refmodel.KeysAndCert, _, _ int) (int, int, bool) {
+		// history: the identity is obtained, then converted and the conversion blinded (operations that
+		// only read it); the types the identity declares AFTERWARDS are what a user relies on
+		ri, _, err := router_identity.ReadRouterIdentity(id)
+		if err != nil {
+			return 0, 0, false
+		}
+		d := ri.AsDestination()
+		core.Guard(func() {
+			_, _ = encrypted_leaseset.CreateBlindedDestination(d, make([]byte, 32), time.Unix(int64(gen.Published), 0))
+		})
+		return riTypes(ri)
+	}},
+	{"destination.ReadDestination, re-observed after CreateBlindedDestination", "dest", func(id []byte, _ refmodel.KeysAndCert, _, _ int) (int, int, bool) {
+		d, _, err := destination.ReadDestination(id)
+		if err != nil {
+			return 0, 0, false
+		}
+		core.Guard(func() {
+			_, _ = encrypted_leaseset.CreateBlindedDestination(d, make([]byte, 32), time.Unix(int64(gen.Published), 0))
+		})
+		return destTypes(d)
+	}},
 	{"router_identity.NewRouterIdentityFromBytes", "ri", func(id []byte, _ refmodel.KeysAndCert, _, _ int) (int, int, bool) {
 		r, _, err := router_identity.NewRouterIdentityFromBytes(id)
 		if err != nil {
@@ -339,7 +364,7 @@ func c09ViaELS(inner []byte) (int, int, bool) {
 
 func runC09(r *core.Run) {
 	r.Level = "model_checking"
-	r.Rule = "every API path that yields a Destination or RouterIdentity (20 paths: direct readers, pointer wrappers, constructors fed from ReadKeysAndCert and from NewKeysAndCert, the legacy LeaseSet reader, LeaseSet2 (flags 0, offline keys, unpublished+blinded, all three) / MetaLeaseSet (with and without offline keys) / RouterInfo embedding, AsDestination, compressible-padding constructor, decrypted inner LeaseSet2) x the full product of all known + boundary signing codes (21) and crypto codes (14) x KEY certificates with 0, 1 and 5 extra payload bytes, plus each axis over all 65,536 codes with the other axis at a permitted value for the four cheap reader paths. Oracle: path success => declared types not prohibited for that kind (independent table); every permitted pair the library can represent succeeds on every path. states = (path, pair) combinations, transitions = API calls. non-trivial = distinct (path, pair) on which the path succeeded"
+	r.Rule = "every API path that yields a Destination or RouterIdentity (22 paths: direct readers, pointer wrappers, constructors fed from ReadKeysAndCert and from NewKeysAndCert, the legacy LeaseSet reader, LeaseSet2 (flags 0, offline keys, unpublished+blinded, all three) / MetaLeaseSet (with and without offline keys) / RouterInfo embedding, AsDestination, compressible-padding constructor, decrypted inner LeaseSet2, and identities re-observed after AsDestination / CreateBlindedDestination) x the full product of all known + boundary signing codes (21) and crypto codes (14) x KEY certificates with 0, 1 and 5 extra payload bytes, plus each axis over all 65,536 codes with the other axis at a permitted value for the four cheap reader paths. Oracle: path success => declared types not prohibited for that kind (independent table); every permitted pair the library can represent succeeds on every path. states = (path, pair) combinations, transitions = API calls. non-trivial = distinct (path, pair) on which the path succeeded"
 	sigCodes := []int{0, 1, 2, 3, 4, 5, 6, 7, 8, 9, 10, 11, 12, 20, 21, 255, 256, 65280, 65534, 65535}
 	crCodes := []int{0, 1, 2, 3, 4, 5, 6, 7, 8, 255, 256, 65280, 65534, 65535}
 	check := func(p c09Path, sig, cr int, extra []byte) {
